@@ -43,10 +43,10 @@ class HybridApprox(claripy.SolverHybrid):
 
 
 APPROX = (claripy.SolverVSA, HybridApprox)
-# constraints of an approximating frontend go through constraint_to_si; whether the bounds it derives cut off models is
-# property C25's subject and is decided there (C25 witness found here: x[1:0] == 2 bounds x to {2}).  Until that check
-# reports the tree clean, C10 queries the approximating frontends without constraints.
-APPROX_WITH_CONSTRAINTS = False
+# constraints of an approximating frontend go through constraint_to_si (property C25's subject).  The C25 witnesses found
+# here (x[1:0] == 2 bounded x to {2}; a Bool == Bool truism crashed the balancer) are fixed, so the approximating frontends are
+# queried under constraints as well.
+APPROX_WITH_CONSTRAINTS = True
 
 
 def build_unfolded(t, rng, p, ctr):
